@@ -173,18 +173,9 @@ def ColDom (Z : Int → Int → R) (p cx cy : Nat) : Prop :=
   ∀ i j : Int, (cy : Int) - ((p / 2 : Nat) : Int) ≤ i → i ≤ (cy : Int) + ((p / 2 : Nat) : Int) →
     (cx : Int) ≤ j → j ≤ (cx : Int) + ((p / 2 : Nat) : Int) → Z i (2 * (cx : Int) - j) ≤ Z i j
 
-/-- strict right of `cx` -/
-def SColDom (Z : Int → Int → R) (p cx cy : Nat) : Prop :=
-  ∀ i j : Int, (cy : Int) - ((p / 2 : Nat) : Int) ≤ i → i ≤ (cy : Int) + ((p / 2 : Nat) : Int) →
-    (cx : Int) < j → j ≤ (cx : Int) + ((p / 2 : Nat) : Int) → Z i (2 * (cx : Int) - j) < Z i j
-
-theorem SColDom.toColDom {Z : Int → Int → R} {p cx cy : Nat} (H : SColDom Z p cx cy) : ColDom Z p cx cy := by
-  intro i j h1 h2 h3 h4
-  rcases lt_or_eq_of_le h3 with h | h
-  · exact le_of_lt (H i j h1 h2 h h4)
-  · subst h
-    have : 2 * (cx : Int) - cx = cx := by omega
-    rw [this]
+/-- strictly so on the centre row `cy`, right of `cx` -/
+def RowSDom (Z : Int → Int → R) (p cx cy : Nat) : Prop :=
+  ∀ j : Int, (cx : Int) < j → j ≤ (cx : Int) + ((p / 2 : Nat) : Int) → Z cy (2 * (cx : Int) - j) < Z cy j
 
 theorem cropZ_dom_right {Z : Int → Int → R} {p cx cy : Nat} (H : ColDom Z p cx cy) :
     ∀ a b, a < p → p - 1 < 2 * b → b < p → cropZ Z p cx cy a (p - 1 - b) ≤ cropZ Z p cx cy a b := by
@@ -212,51 +203,93 @@ theorem cropZ_dom_right {Z : Int → Int → R} {p cx cy : Nat} (H : ColDom Z p 
     apply div_le_div_of_nonneg_right _ (by norm_num : (0 : R) ≤ 4)
     linarith
 
-theorem cropZ_sdom_right {Z : Int → Int → R} {p cx cy : Nat} (H : SColDom Z p cx cy) :
-    ∀ a b, a < p → p - 1 < 2 * b → b < p → cropZ Z p cx cy a (p - 1 - b) < cropZ Z p cx cy a b := by
-  intro a b ha hb2 hb
-  have HL := H.toColDom
+/-- the crop row through the cell's own map row, `a = (p-1)/2`, is strictly dominated -/
+theorem cropZ_sdom_mid {Z : Int → Int → R} {p cx cy : Nat} (H : ColDom Z p cx cy) (Hs : RowSDom Z p cx cy) :
+    ∀ b, p - 1 < 2 * b → b < p →
+      cropZ Z p cx cy ((p - 1) / 2) (p - 1 - b) < cropZ Z p cx cy ((p - 1) / 2) b := by
+  intro b hb2 hb
   by_cases hp : p % 2 = 1
   · rw [cropZ_odd _ hp, cropZ_odd _ hp]
     have e : (cx : Int) - ((p / 2 : Nat) : Int) + ((p - 1 - b : Nat) : Int)
         = 2 * (cx : Int) - ((cx : Int) - ((p / 2 : Nat) : Int) + b) := by omega
-    rw [e]
-    apply H <;> omega
+    have ey : (cy : Int) - ((p / 2 : Nat) : Int) + (((p - 1) / 2 : Nat) : Int) = cy := by omega
+    rw [e, ey]
+    apply Hs <;> omega
   · rw [cropZ_even _ hp, cropZ_even _ hp]
     have e1 : (cx : Int) - ((p / 2 : Nat) : Int) + ((p - 1 - b : Nat) : Int)
         = 2 * (cx : Int) - ((cx : Int) - ((p / 2 : Nat) : Int) + b + 1) := by omega
     have e2 : 2 * (cx : Int) - ((cx : Int) - ((p / 2 : Nat) : Int) + b + 1) + 1
         = 2 * (cx : Int) - ((cx : Int) - ((p / 2 : Nat) : Int) + b) := by omega
-    rw [e1, e2]
-    have h1 := HL ((cy : Int) - ((p / 2 : Nat) : Int) + a) ((cx : Int) - ((p / 2 : Nat) : Int) + b)
+    have ey : (cy : Int) - ((p / 2 : Nat) : Int) + (((p - 1) / 2 : Nat) : Int) + 1 = cy := by omega
+    rw [e1, e2, ey]
+    have h1 := H ((cy : Int) - ((p / 2 : Nat) : Int) + (((p - 1) / 2 : Nat) : Int)) ((cx : Int) - ((p / 2 : Nat) : Int) + b)
       (by omega) (by omega) (by omega) (by omega)
-    have h2 := H ((cy : Int) - ((p / 2 : Nat) : Int) + a) ((cx : Int) - ((p / 2 : Nat) : Int) + b + 1)
+    have h2 := H ((cy : Int) - ((p / 2 : Nat) : Int) + (((p - 1) / 2 : Nat) : Int)) ((cx : Int) - ((p / 2 : Nat) : Int) + b + 1)
       (by omega) (by omega) (by omega) (by omega)
-    have h3 := HL ((cy : Int) - ((p / 2 : Nat) : Int) + a + 1) ((cx : Int) - ((p / 2 : Nat) : Int) + b)
-      (by omega) (by omega) (by omega) (by omega)
-    have h4 := H ((cy : Int) - ((p / 2 : Nat) : Int) + a + 1) ((cx : Int) - ((p / 2 : Nat) : Int) + b + 1)
-      (by omega) (by omega) (by omega) (by omega)
+    have h3 := H (cy : Int) ((cx : Int) - ((p / 2 : Nat) : Int) + b) (by omega) (by omega) (by omega) (by omega)
+    have h4 := Hs ((cx : Int) - ((p / 2 : Nat) : Int) + b + 1) (by omega) (by omega)
     apply div_lt_div_of_pos_right _ (by norm_num : (0 : R) < 4)
     linarith
 
-/-! ### bump maps -/
+/-- a (padded) map that is mirror-symmetric about column `cx` on the window gives mirror-symmetric crop rows -/
+theorem cropZ_symm {Z : Int → Int → R} {p cx cy : Nat} (H1 : ColDom Z p cx cy)
+    (H2 : ColDom (fun i j => - Z i j) p cx cy) :
+    ∀ a b, a < p → b < p → cropZ Z p cx cy a (p - 1 - b) = cropZ Z p cx cy a b := by
+  have key : ∀ a b, a < p → p - 1 < 2 * b → b < p → cropZ Z p cx cy a (p - 1 - b) = cropZ Z p cx cy a b := by
+    intro a b ha hb2 hb
+    have h1 := cropZ_dom_right H1 a b ha hb2 hb
+    have h2 := cropZ_dom_right H2 a b ha hb2 hb
+    rw [cropZ_neg, cropZ_neg, neg_le_neg_iff] at h2
+    exact le_antisymm h1 h2
+  intro a b ha hb
+  rcases Nat.lt_trichotomy (2 * b) (p - 1) with h | h | h
+  · have := key a (p - 1 - b) ha (by omega) (by omega)
+    have e : p - 1 - (p - 1 - b) = b := by omega
+    rw [e] at this
+    exact this.symm
+  · have e : p - 1 - b = b := by omega
+    rw [e]
+  · exact key a b ha h hb
 
-/-- the map is an even, radially non-increasing profile `g(d²)` centred at `(cx+δx, cy+δy)` and the
-`p`-crop around cell `(cx,cy)` lies inside the map -/
-structure BumpMap (h w : Nat) (img : Nat → Nat → R) (g : R → R) (p cx cy : Nat) (δx δy : R) : Prop where
+theorem xNum_neg_fun (p : Nat) (P : Nat → Nat → R) : xNum p (fun a b => - P a b) = - xNum p P := by
+  simp only [xNum_eq, mul_neg, Finset.sum_neg_distrib]
+
+/-- strict positivity needs strict dominance on one row only -/
+theorem xNum_pos_of_row (p : Nat) (hp : 2 ≤ p) (P : Nat → Nat → R) (a0 : Nat) (ha0 : a0 < p)
+    (hdom : ∀ a b, a < p → p - 1 < 2 * b → b < p → P a (p - 1 - b) ≤ P a b)
+    (hs : ∀ b, p - 1 < 2 * b → b < p → P a0 (p - 1 - b) < P a0 b) : 0 < xNum p P := by
+  rw [xNum_eq]
+  exact Finset.sum_pos' (fun a ha => row_nonneg p (P a) fun b h1 h2 => hdom a b (Finset.mem_range.mp ha) h1 h2)
+    ⟨a0, Finset.mem_range.mpr ha0, row_pos p hp (P a0) hs⟩
+
+/-! ### bump maps, one axis at a time -/
+
+/-- the map is an even, radially non-increasing profile `g(d²)` centred at `(cx+δx, cy+δy)`; the cell
+`(cx,cy)` is in the map and the `p`-crop around it stays inside the map **along x** (it may leave
+the map along y: rows outside read the zero padding, which is mirror-symmetric in x) -/
+structure BumpX (h w : Nat) (img : Nat → Nat → R) (g : R → R) (p cx cy : Nat) (δx δy : R) : Prop where
   x0 : p / 2 ≤ cx
   x1 : cx + p / 2 < w
-  y0 : p / 2 ≤ cy
-  y1 : cy + p / 2 < h
+  ycell : cy < h
   shape : ∀ i j, i < h → j < w → img i j = g (((j : R) - (cx + δx))^2 + ((i : R) - (cy + δy))^2)
 
-theorem BumpMap.transpose {h w : Nat} {img : Nat → Nat → R} {g : R → R} {p cx cy : Nat} {δx δy : R}
-    (B : BumpMap h w img g p cx cy δx δy) : BumpMap w h (fun i j => img j i) g p cy cx δy δx :=
-  ⟨B.y0, B.y1, B.x0, B.x1, fun i j hi hj => by rw [B.shape j i hj hi, add_comm]⟩
+/-- the same along y, as a `BumpX` of the transposed map -/
+theorem BumpX.ofTranspose {h w : Nat} {img : Nat → Nat → R} {g : R → R} {p cx cy : Nat} {δx δy : R}
+    (y0 : p / 2 ≤ cy) (y1 : cy + p / 2 < h) (xcell : cx < w)
+    (shape : ∀ i j, i < h → j < w → img i j = g (((j : R) - (cx + δx))^2 + ((i : R) - (cy + δy))^2)) :
+    BumpX w h (fun i j => img j i) g p cy cx δy δx :=
+  ⟨y0, y1, xcell, fun i j hi hj => by rw [shape j i hj hi, add_comm]⟩
+
+theorem zeroPadAt_oob_row {h w : Nat} (img : Nat → Nat → R) {i : Int} (hi : ¬ (0 ≤ i ∧ i < h)) (j : Int) :
+    zeroPadAt h w img i j = 0 := by
+  unfold zeroPadAt
+  rw [if_neg]
+  simp only [inB, Bool.and_eq_true, decide_eq_true_eq]
+  tauto
 
 /-- value of the padded bump map at an in-range signed position -/
-theorem BumpMap.at {h w : Nat} {img : Nat → Nat → R} {g : R → R} {p cx cy : Nat} {δx δy : R}
-    (B : BumpMap h w img g p cx cy δx δy) (i j : Int) (hi0 : 0 ≤ i) (hi1 : i < h) (hj0 : 0 ≤ j) (hj1 : j < w) :
+theorem BumpX.at {h w : Nat} {img : Nat → Nat → R} {g : R → R} {p cx cy : Nat} {δx δy : R}
+    (B : BumpX h w img g p cx cy δx δy) (i j : Int) (hi0 : 0 ≤ i) (hi1 : i < h) (hj0 : 0 ≤ j) (hj1 : j < w) :
     zeroPadAt h w img i j = g (((j : R) - (cx + δx))^2 + ((i : R) - (cy + δy))^2) := by
   have hi : ((i.toNat : Nat) : Int) = i := Int.toNat_of_nonneg hi0
   have hj : ((j.toNat : Nat) : Int) = j := Int.toNat_of_nonneg hj0
@@ -270,29 +303,51 @@ theorem mirror_sq' (cx : Nat) (j : Int) (δ : R) :
     (((2 * (cx : Int) - j : Int) : R) - (cx + δ))^2 - ((j : R) - (cx + δ))^2 = 4 * ((j : R) - cx) * δ := by
   push_cast; ring
 
-theorem BumpMap.colDom {h w : Nat} {img : Nat → Nat → R} {g : R → R} {p cx cy : Nat} {δx δy : R}
-    (B : BumpMap h w img g p cx cy δx δy) (anti : ∀ u v, 0 ≤ u → u ≤ v → g v ≤ g u) (hδ : 0 ≤ δx) :
+theorem BumpX.colDom {h w : Nat} {img : Nat → Nat → R} {g : R → R} {p cx cy : Nat} {δx δy : R}
+    (B : BumpX h w img g p cx cy δx δy) (anti : ∀ u v, 0 ≤ u → u ≤ v → g v ≤ g u) (hδ : 0 ≤ δx) :
     ColDom (zeroPadAt h w img) p cx cy := by
-  intro i j h1 h2 h3 h4
-  have := B.x0; have := B.x1; have := B.y0; have := B.y1
-  rw [B.at i j (by omega) (by omega) (by omega) (by omega),
-      B.at i (2 * (cx : Int) - j) (by omega) (by omega) (by omega) (by omega)]
-  apply anti
-  · positivity
-  · have e := mirror_sq' (R := R) cx j δx
-    have hk : (0 : R) ≤ (j : R) - cx := by
-      have : ((cx : Int) : R) ≤ (j : R) := by exact_mod_cast h3
-      simpa using sub_nonneg.mpr this
-    have : 0 ≤ 4 * ((j : R) - cx) * δx := by positivity
-    linarith
+  intro i j _ _ h3 h4
+  have := B.x0; have := B.x1
+  by_cases hi : 0 ≤ i ∧ i < h
+  · rw [B.at i j hi.1 hi.2 (by omega) (by omega), B.at i (2 * (cx : Int) - j) hi.1 hi.2 (by omega) (by omega)]
+    apply anti
+    · positivity
+    · have e := mirror_sq' (R := R) cx j δx
+      have hk : (0 : R) ≤ (j : R) - cx := by
+        have : ((cx : Int) : R) ≤ (j : R) := by exact_mod_cast h3
+        simpa using sub_nonneg.mpr this
+      have : 0 ≤ 4 * ((j : R) - cx) * δx := by positivity
+      linarith
+  · rw [zeroPadAt_oob_row img hi, zeroPadAt_oob_row img hi]
 
-theorem BumpMap.sColDom {h w : Nat} {img : Nat → Nat → R} {g : R → R} {p cx cy : Nat} {δx δy : R}
-    (B : BumpMap h w img g p cx cy δx δy) (santi : ∀ u v, 0 ≤ u → u < v → g v < g u) (hδ : 0 < δx) :
-    SColDom (zeroPadAt h w img) p cx cy := by
-  intro i j h1 h2 h3 h4
-  have := B.x0; have := B.x1; have := B.y0; have := B.y1
-  rw [B.at i j (by omega) (by omega) (by omega) (by omega),
-      B.at i (2 * (cx : Int) - j) (by omega) (by omega) (by omega) (by omega)]
+theorem BumpX.colDom_neg {h w : Nat} {img : Nat → Nat → R} {g : R → R} {p cx cy : Nat} {δx δy : R}
+    (B : BumpX h w img g p cx cy δx δy) (anti : ∀ u v, 0 ≤ u → u ≤ v → g v ≤ g u) (hδ : δx ≤ 0) :
+    ColDom (fun i j => - zeroPadAt h w img i j) p cx cy := by
+  intro i j _ _ h3 h4
+  have := B.x0; have := B.x1
+  show - zeroPadAt h w img i (2 * (cx : Int) - j) ≤ - zeroPadAt h w img i j
+  by_cases hi : 0 ≤ i ∧ i < h
+  · rw [B.at i j hi.1 hi.2 (by omega) (by omega), B.at i (2 * (cx : Int) - j) hi.1 hi.2 (by omega) (by omega),
+        neg_le_neg_iff]
+    apply anti
+    · positivity
+    · have e := mirror_sq' (R := R) cx j δx
+      have hk : (0 : R) ≤ (j : R) - cx := by
+        have : ((cx : Int) : R) ≤ (j : R) := by exact_mod_cast h3
+        simpa using sub_nonneg.mpr this
+      have : 0 ≤ 4 * ((j : R) - cx) * (-δx) := by
+        have : 0 ≤ -δx := by linarith
+        positivity
+      linarith
+  · rw [zeroPadAt_oob_row img hi, zeroPadAt_oob_row img hi]
+
+theorem BumpX.rowSDom {h w : Nat} {img : Nat → Nat → R} {g : R → R} {p cx cy : Nat} {δx δy : R}
+    (B : BumpX h w img g p cx cy δx δy) (santi : ∀ u v, 0 ≤ u → u < v → g v < g u) (hδ : 0 < δx) :
+    RowSDom (zeroPadAt h w img) p cx cy := by
+  intro j h3 h4
+  have := B.x0; have := B.x1; have := B.ycell
+  rw [B.at cy j (by omega) (by omega) (by omega) (by omega),
+      B.at cy (2 * (cx : Int) - j) (by omega) (by omega) (by omega) (by omega)]
   apply santi
   · positivity
   · have e := mirror_sq' (R := R) cx j δx
@@ -302,34 +357,14 @@ theorem BumpMap.sColDom {h w : Nat} {img : Nat → Nat → R} {g : R → R} {p c
     have : 0 < 4 * ((j : R) - cx) * δx := by positivity
     linarith
 
-/-- `δx ≤ 0`: the mirrored (negated) statement -/
-theorem BumpMap.colDom_neg {h w : Nat} {img : Nat → Nat → R} {g : R → R} {p cx cy : Nat} {δx δy : R}
-    (B : BumpMap h w img g p cx cy δx δy) (anti : ∀ u v, 0 ≤ u → u ≤ v → g v ≤ g u) (hδ : δx ≤ 0) :
-    ColDom (fun i j => - zeroPadAt h w img i j) p cx cy := by
-  intro i j h1 h2 h3 h4
-  have := B.x0; have := B.x1; have := B.y0; have := B.y1
-  show - zeroPadAt h w img i (2 * (cx : Int) - j) ≤ - zeroPadAt h w img i j
-  rw [B.at i j (by omega) (by omega) (by omega) (by omega),
-      B.at i (2 * (cx : Int) - j) (by omega) (by omega) (by omega) (by omega), neg_le_neg_iff]
-  apply anti
-  · positivity
-  · have e := mirror_sq' (R := R) cx j δx
-    have hk : (0 : R) ≤ (j : R) - cx := by
-      have : ((cx : Int) : R) ≤ (j : R) := by exact_mod_cast h3
-      simpa using sub_nonneg.mpr this
-    have : 0 ≤ 4 * ((j : R) - cx) * (-δx) := by
-      have : 0 ≤ -δx := by linarith
-      positivity
-    linarith
-
-theorem BumpMap.sColDom_neg {h w : Nat} {img : Nat → Nat → R} {g : R → R} {p cx cy : Nat} {δx δy : R}
-    (B : BumpMap h w img g p cx cy δx δy) (santi : ∀ u v, 0 ≤ u → u < v → g v < g u) (hδ : δx < 0) :
-    SColDom (fun i j => - zeroPadAt h w img i j) p cx cy := by
-  intro i j h1 h2 h3 h4
-  have := B.x0; have := B.x1; have := B.y0; have := B.y1
-  show - zeroPadAt h w img i (2 * (cx : Int) - j) < - zeroPadAt h w img i j
-  rw [B.at i j (by omega) (by omega) (by omega) (by omega),
-      B.at i (2 * (cx : Int) - j) (by omega) (by omega) (by omega) (by omega), neg_lt_neg_iff]
+theorem BumpX.rowSDom_neg {h w : Nat} {img : Nat → Nat → R} {g : R → R} {p cx cy : Nat} {δx δy : R}
+    (B : BumpX h w img g p cx cy δx δy) (santi : ∀ u v, 0 ≤ u → u < v → g v < g u) (hδ : δx < 0) :
+    RowSDom (fun i j => - zeroPadAt h w img i j) p cx cy := by
+  intro j h3 h4
+  have := B.x0; have := B.x1; have := B.ycell
+  show - zeroPadAt h w img cy (2 * (cx : Int) - j) < - zeroPadAt h w img cy j
+  rw [B.at cy j (by omega) (by omega) (by omega) (by omega),
+      B.at cy (2 * (cx : Int) - j) (by omega) (by omega) (by omega) (by omega), neg_lt_neg_iff]
   apply santi
   · positivity
   · have e := mirror_sq' (R := R) cx j δx
@@ -341,15 +376,22 @@ theorem BumpMap.sColDom_neg {h w : Nat} {img : Nat → Nat → R} {g : R → R} 
       positivity
     linarith
 
+theorem anti_of_santi {g : R → R} (santi : ∀ u v, 0 ≤ u → u < v → g v < g u) :
+    ∀ u v, 0 ≤ u → u ≤ v → g v ≤ g u := by
+  intro u v hu huv
+  rcases lt_or_eq_of_le huv with h1 | h1
+  · exact le_of_lt (santi u v hu h1)
+  · rw [h1]
+
 /-! ### sign of the x-numerator on a bump map (y: apply to the transpose) -/
 
-theorem BumpMap.xNum_nonneg {h w : Nat} {img : Nat → Nat → R} {g : R → R} {p cx cy : Nat} {δx δy : R}
-    (B : BumpMap h w img g p cx cy δx δy) (anti : ∀ u v, 0 ≤ u → u ≤ v → g v ≤ g u) (hδ : 0 ≤ δx) :
+theorem BumpX.xNum_nonneg {h w : Nat} {img : Nat → Nat → R} {g : R → R} {p cx cy : Nat} {δx δy : R}
+    (B : BumpX h w img g p cx cy δx δy) (anti : ∀ u v, 0 ≤ u → u ≤ v → g v ≤ g u) (hδ : 0 ≤ δx) :
     0 ≤ xNum p (patch h w img p cx cy) :=
   Peaks.xNum_nonneg p _ (cropZ_dom_right (B.colDom anti hδ))
 
-theorem BumpMap.xNum_nonpos {h w : Nat} {img : Nat → Nat → R} {g : R → R} {p cx cy : Nat} {δx δy : R}
-    (B : BumpMap h w img g p cx cy δx δy) (anti : ∀ u v, 0 ≤ u → u ≤ v → g v ≤ g u) (hδ : δx ≤ 0) :
+theorem BumpX.xNum_nonpos {h w : Nat} {img : Nat → Nat → R} {g : R → R} {p cx cy : Nat} {δx δy : R}
+    (B : BumpX h w img g p cx cy δx δy) (anti : ∀ u v, 0 ≤ u → u ≤ v → g v ≤ g u) (hδ : δx ≤ 0) :
     xNum p (patch h w img p cx cy) ≤ 0 := by
   apply Peaks.xNum_nonpos p _
   intro a b ha hb2 hb
@@ -357,19 +399,28 @@ theorem BumpMap.xNum_nonpos {h w : Nat} {img : Nat → Nat → R} {g : R → R} 
   rw [cropZ_neg, cropZ_neg, neg_le_neg_iff] at this
   exact this
 
-theorem BumpMap.xNum_pos {h w : Nat} {img : Nat → Nat → R} {g : R → R} {p cx cy : Nat} {δx δy : R}
-    (B : BumpMap h w img g p cx cy δx δy) (hp : 2 ≤ p) (santi : ∀ u v, 0 ≤ u → u < v → g v < g u) (hδ : 0 < δx) :
+theorem BumpX.xNum_pos {h w : Nat} {img : Nat → Nat → R} {g : R → R} {p cx cy : Nat} {δx δy : R}
+    (B : BumpX h w img g p cx cy δx δy) (hp : 2 ≤ p) (santi : ∀ u v, 0 ≤ u → u < v → g v < g u) (hδ : 0 < δx) :
     0 < xNum p (patch h w img p cx cy) :=
-  Peaks.xNum_pos p hp _ (cropZ_sdom_right (B.sColDom santi hδ))
+  xNum_pos_of_row p hp _ ((p - 1) / 2) (by omega)
+    (cropZ_dom_right (B.colDom (anti_of_santi santi) (le_of_lt hδ)))
+    (cropZ_sdom_mid (B.colDom (anti_of_santi santi) (le_of_lt hδ)) (B.rowSDom santi hδ))
 
-theorem BumpMap.xNum_neg {h w : Nat} {img : Nat → Nat → R} {g : R → R} {p cx cy : Nat} {δx δy : R}
-    (B : BumpMap h w img g p cx cy δx δy) (hp : 2 ≤ p) (santi : ∀ u v, 0 ≤ u → u < v → g v < g u) (hδ : δx < 0) :
+theorem BumpX.xNum_neg {h w : Nat} {img : Nat → Nat → R} {g : R → R} {p cx cy : Nat} {δx δy : R}
+    (B : BumpX h w img g p cx cy δx δy) (hp : 2 ≤ p) (santi : ∀ u v, 0 ≤ u → u < v → g v < g u) (hδ : δx < 0) :
     xNum p (patch h w img p cx cy) < 0 := by
-  apply Peaks.xNum_neg p hp _
-  intro a b ha hb2 hb
-  have := cropZ_sdom_right (B.sColDom_neg santi hδ) a b ha hb2 hb
-  rw [cropZ_neg, cropZ_neg, neg_lt_neg_iff] at this
-  exact this
+  have H := B.colDom_neg (anti_of_santi santi) (le_of_lt hδ)
+  have := xNum_pos_of_row p hp (fun a b => - patch h w img p cx cy a b) ((p - 1) / 2) (by omega)
+    (fun a b ha hb2 hb => by
+      have := cropZ_dom_right H a b ha hb2 hb
+      rw [cropZ_neg, cropZ_neg] at this
+      exact this)
+    (fun b hb2 hb => by
+      have := cropZ_sdom_mid H (B.rowSDom_neg santi hδ) b hb2 hb
+      rw [cropZ_neg, cropZ_neg] at this
+      exact this)
+  rw [xNum_neg_fun] at this
+  linarith
 
 theorem yNum_eq_xNum_patch_transpose (h w : Nat) (img : Nat → Nat → R) (p cx cy : Nat) :
     yNum p (patch h w img p cx cy) = xNum p (patch w h (fun i j => img j i) p cy cx) := by
@@ -377,5 +428,91 @@ theorem yNum_eq_xNum_patch_transpose (h w : Nat) (img : Nat → Nat → R) (p cx
   congr 1
   funext a b
   exact patch_transpose h w img p cx cy b a
+
+/-! ### map symmetric about the cell ⇒ patch symmetric -/
+
+/-- the zero-padded map is mirror-symmetric about column `cx` on the window of the `p`-crop -/
+def ColSymm (Z : Int → Int → R) (p cx cy : Nat) : Prop :=
+  ∀ i j : Int, (cy : Int) - ((p / 2 : Nat) : Int) ≤ i → i ≤ (cy : Int) + ((p / 2 : Nat) : Int) →
+    (cx : Int) ≤ j → j ≤ (cx : Int) + ((p / 2 : Nat) : Int) → Z i (2 * (cx : Int) - j) = Z i j
+
+theorem cropZ_symm_of_colSymm {Z : Int → Int → R} {p cx cy : Nat} (H : ColSymm Z p cx cy) :
+    ∀ a b, a < p → b < p → cropZ Z p cx cy a (p - 1 - b) = cropZ Z p cx cy a b :=
+  cropZ_symm (fun i j h1 h2 h3 h4 => le_of_eq (H i j h1 h2 h3 h4))
+    (fun i j h1 h2 h3 h4 => by
+      show - Z i (2 * (cx : Int) - j) ≤ - Z i j
+      rw [H i j h1 h2 h3 h4])
+
+/-- a map that is mirror-symmetric about column `cx` (`img i (cx-d) = img i (cx+d)`, `d ≤ p/2`), with
+the crop inside the map along x, has a column-symmetric padded window -/
+theorem colSymm_of_map {h w : Nat} (img : Nat → Nat → R) {p cx cy : Nat} (hx0 : p / 2 ≤ cx) (hx1 : cx + p / 2 < w)
+    (hs : ∀ i d, i < h → d ≤ p / 2 → img i (cx - d) = img i (cx + d)) :
+    ColSymm (zeroPadAt h w img) p cx cy := by
+  intro i j _ _ h3 h4
+  by_cases hi : 0 ≤ i ∧ i < h
+  · have hti : ((i.toNat : Nat) : Int) = i := Int.toNat_of_nonneg hi.1
+    obtain ⟨d, hd⟩ := Int.eq_ofNat_of_zero_le (show 0 ≤ j - (cx : Int) by omega)
+    have hdle : d ≤ p / 2 := by omega
+    have e1 : j = ((cx + d : Nat) : Int) := by push_cast; omega
+    have e2 : 2 * (cx : Int) - j = ((cx - d : Nat) : Int) := by
+      rw [Nat.cast_sub (by omega)]; omega
+    rw [zeroPadAt_of_nat img (i' := i.toNat) (j' := cx + d) hti.symm e1 (by omega) (by omega),
+        zeroPadAt_of_nat img (i' := i.toNat) (j' := cx - d) hti.symm e2 (by omega) (by omega)]
+    exact hs _ _ (by omega) hdle
+  · rw [zeroPadAt_oob_row img hi, zeroPadAt_oob_row img hi]
+
+/-! ### the rough detector on a strictly decreasing bump -/
+
+theorem axis_sq_lt {n m : Nat} (hne : n ≠ m) {δ : R} (hδ : |δ| < 1 / 2) :
+    ((m : R) - (m + δ))^2 < ((n : R) - (m + δ))^2 := by
+  obtain ⟨h1, h2⟩ := abs_lt.mp hδ
+  rcases Nat.lt_or_gt_of_ne hne with h | h
+  · have ht : (n : R) + 1 ≤ m := by exact_mod_cast h
+    have a1 : (n : R) - m < 0 := by linarith
+    have a2 : (n : R) - m - 2 * δ < 0 := by linarith
+    have := mul_pos_of_neg_of_neg a1 a2
+    nlinarith
+  · have ht : (m : R) + 1 ≤ n := by exact_mod_cast h
+    have a1 : 0 < (n : R) - m := by linarith
+    have a2 : 0 < (n : R) - m - 2 * δ := by linarith
+    have := mul_pos a1 a2
+    nlinarith
+
+theorem axis_sq_le (n m : Nat) {δ : R} (hδ : |δ| < 1 / 2) :
+    ((m : R) - (m + δ))^2 ≤ ((n : R) - (m + δ))^2 := by
+  by_cases h : n = m
+  · rw [h]
+  · exact le_of_lt (axis_sq_lt h hδ)
+
+/-- on a strictly decreasing bump whose centre is within half a cell of `(cx,cy)` every other cell is
+strictly below that cell -/
+theorem bump_cell_lt {h w : Nat} {img : Nat → Nat → R} {g : R → R} {cx cy : Nat} {δx δy : R}
+    (hcx : cx < w) (hcy : cy < h)
+    (shape : ∀ i j, i < h → j < w → img i j = g (((j : R) - (cx + δx))^2 + ((i : R) - (cy + δy))^2))
+    (santi : ∀ u v, 0 ≤ u → u < v → g v < g u) (hδx : |δx| < 1 / 2) (hδy : |δy| < 1 / 2)
+    {i j : Nat} (hi : i < h) (hj : j < w) (hne : i ≠ cy ∨ j ≠ cx) : img i j < img cy cx := by
+  rw [shape i j hi hj, shape cy cx hcy hcx]
+  apply santi
+  · positivity
+  · rcases hne with hne | hne
+    · have := axis_sq_lt (R := R) hne hδy
+      have := axis_sq_le (R := R) j cx hδx
+      linarith
+    · have := axis_sq_lt (R := R) hne hδx
+      have := axis_sq_le (R := R) i cy hδy
+      linarith
+
+theorem flatArg_of_strict_max {h w : Nat} {img : Nat → Nat → R} {cx cy : Nat} (hcx : cx < w) (hcy : cy < h)
+    (hmax : ∀ i j, i < h → j < w → (i ≠ cy ∨ j ≠ cx) → img i j < img cy cx) :
+    flatArg h w img / w = cy ∧ flatArg h w img % w = cx := by
+  obtain ⟨h1, h2⟩ := flatArg_bounds (by omega : 0 < h) (by omega : 0 < w) img
+  have hle := le_flatArg (h := h) (w := w) img hcy hcx
+  by_contra hcon
+  have hne : flatArg h w img / w ≠ cy ∨ flatArg h w img % w ≠ cx := by
+    by_contra hh
+    rw [not_or, not_not, not_not] at hh
+    exact hcon hh
+  have := hmax _ _ h1 h2 hne
+  exact absurd hle (not_le.mpr this)
 
 end SleapVerif.Peaks
